@@ -332,6 +332,10 @@ def r9(p, rep):
     rep.info["guard_after_use_tests_inspected"] = n_tests
 
 
+def _atom(x):
+    """`self.name` / `str(self.value)`: the text of one name or number token"""
+    return isinstance(x, ast.Attribute) or (isinstance(x, ast.Call) and norm(x.func) == "str" and len(x.args) == 1 and isinstance(x.args[0], ast.Attribute))
+
 def r10(p, rep):
     rep.rule("C12.R10", "what is printed in front of `...` is one group: an operand whose own text is not a single token or a delimited group is wrapped", "T-EXH over the stage-1 node classes (printer of the ellipsis operand)", floor=4)
     m = p.module("namedtensor.stage1.tree")
@@ -349,7 +353,8 @@ def r10(p, rep):
     s0 = es.node.args.args[0].arg
     wrapped = set()
     for n in ast.walk(es.node):
-        if isinstance(n, ast.Call) and isinstance(n.func, ast.Name) and n.func.id == "isinstance" and len(n.args) == 2 and norm(n.args[0]) == f"{s0}.inner":
+        aliases = {f"{s0}.inner"} | {t.id for a in ast.walk(es.node) if isinstance(a, ast.Assign) and norm(a.value) == f"{s0}.inner" for t in a.targets if isinstance(t, ast.Name)}
+        if isinstance(n, ast.Call) and isinstance(n.func, ast.Name) and n.func.id == "isinstance" and len(n.args) == 2 and norm(n.args[0]) in aliases:
             wrapped |= {x.id for x in ast.walk(n.args[1]) if isinstance(x, ast.Name)}
 
     def shape_of(c):
@@ -371,9 +376,9 @@ def r10(p, rep):
                     kinds.add("delimited")
                 elif isinstance(r.value, ast.Constant):
                     kinds.add("token")
-                elif isinstance(r.value, ast.IfExp) and all(isinstance(x, ast.Attribute) or (isinstance(x, ast.Call) and norm(x.func) == "str" and isinstance(x.args[0], ast.Attribute)) for x in (r.value.body, r.value.orelse)):
+                elif isinstance(r.value, ast.IfExp) and all(_atom(x) for x in (r.value.body, r.value.orelse)):
                     kinds.add("token")
-                elif isinstance(r.value, ast.Attribute):
+                elif _atom(r.value):
                     kinds.add("token")
                 else:
                     kinds.add("open")
